@@ -146,3 +146,43 @@ package connlist
 //@   requires c != nil
 //@   modifies *
 //@   ensures [C04] nonnil: res != nil
+
+// ---------------------------------------------------------------------------------------------
+// Stop-on-error (C13): a fatal error always stops, a severe one stops iff stop-on-first-error is set; nothing else does
+// ---------------------------------------------------------------------------------------------
+//@ import parser "github.com/np-guard/netpol-analyzer/pkg/manifests/parser"
+//@ pred clErrOK(e ConnlistError) = (dyntype(e, *connlistGeneratingError) && unwrap(e, *connlistGeneratingError) != nil)
+//@     || (dyntype(e, *parser.FileProcessingError) && unwrap(e, *parser.FileProcessingError) != nil)
+//@ fun clErrFatal(e ConnlistError) bool = if dyntype(e, *connlistGeneratingError) then unwrap(e, *connlistGeneratingError).fatal
+//@       else unwrap(e, *parser.FileProcessingError).fatal
+//@ fun clErrSevere(e ConnlistError) bool = if dyntype(e, *connlistGeneratingError) then unwrap(e, *connlistGeneratingError).severe
+//@       else unwrap(e, *parser.FileProcessingError).severe
+//@ pred clErrsOK(ca *ConnlistAnalyzer) = forall i int :: {ca.errors[i]} (0 <= i && i < len(ca.errors)) ==> clErrOK(ca.errors[i])
+
+//@ func (*ConnlistAnalyzer).stopProcessing
+//@   requires ca != nil && clErrsOK(ca)
+//@   ensures [C13] def: res == (exists i int :: {ca.errors[i]} 0 <= i && i < len(ca.errors) && (clErrFatal(ca.errors[i]) || (ca.stopOnError && clErrSevere(ca.errors[i]))))
+//@   loop 1:
+//@     invariant none: forall i int :: {ca.errors[i]} (0 <= i && i <= rangeindex) ==> !(clErrFatal(ca.errors[i]) || (ca.stopOnError && clErrSevere(ca.errors[i])))
+
+//@ func (*ConnlistAnalyzer).hasFatalError
+//@   requires ca != nil && clErrsOK(ca)
+//@   ensures [C13] none: (forall i int :: {ca.errors[i]} (0 <= i && i < len(ca.errors)) ==> !clErrFatal(ca.errors[i])) ==> res == nil
+//@   ensures [C13] some: (res != nil) ==> (exists j int :: {ca.errors[j]} 0 <= j && j < len(ca.errors) && clErrFatal(ca.errors[j]) && res == clErrErr(ca.errors[j]))
+//@   ensures [C13] first: (exists i int :: {ca.errors[i]} 0 <= i && i < len(ca.errors) && clErrFatal(ca.errors[i]) && (forall k int :: {ca.errors[k]} (0 <= k && k < i) ==> !clErrFatal(ca.errors[k])) && clErrErr(ca.errors[i]) != nil) ==> res != nil
+//@   loop 1:
+//@     invariant none: forall i int :: {ca.errors[i]} (0 <= i && i <= rangeindex) ==> !clErrFatal(ca.errors[i])
+//@ fun clErrErr(e ConnlistError) error = if dyntype(e, *connlistGeneratingError) then unwrap(e, *connlistGeneratingError).err
+//@       else unwrap(e, *parser.FileProcessingError).err
+
+// ---------------------------------------------------------------------------------------------
+// --focusworkload W exists iff W is the ingress controller and there are ingress sources, or some listed peer matches W (C16)
+// ---------------------------------------------------------------------------------------------
+//@ pred clPeersOK(ps []Peer) = forall i int :: {ps[i]} (0 <= i && i < len(ps)) ==> clPeerOK(ps[i])
+//@ func (*ConnlistAnalyzer).existsFocusWorkload
+//@   requires ca != nil && clPeersOK(ca.peersList)
+//@   ensures [C16] ingress: ca.focusWorkload == "ingress-controller" ==> existFocusWorkload == !excludeIngressAnalysis
+//@   ensures [C16] peers: ca.focusWorkload != "ingress-controller" ==> existFocusWorkload == (exists i int :: {ca.peersList[i]} 0 <= i && i < len(ca.peersList) && focusMatch(ca, ca.peersList[i]))
+//@   ensures [C16] nowarn: existFocusWorkload ==> warning == ""
+//@   loop 1:
+//@     invariant none: forall i int :: {ca.peersList[i]} (0 <= i && i <= rangeindex) ==> !focusMatch(ca, ca.peersList[i])
